@@ -64,7 +64,7 @@ func genC12(r *simrt.Rand, tier string) json.RawMessage {
 		}
 		h.ItemId = pick("good", "good", "empty", "short", "long")
 		h.Vec = pick("good", "good", "empty", "short", "long", "nan", "inf", "collinear", "collinear")
-		h.Meta = pick("none", "small", "longkey", "longval", "many")
+		h.Meta = pick("none", "small", "longkey", "longval", "many", "widekey", "wideval", "edgekey")
 		h.K = []uint32{0, 1, 5, 1 << 20, math.MaxUint32}[r.Intn(5)]
 		h.Items = []int{0, 1, 3, 100, 101}[r.Intn(5)]
 		h.Dup = r.Bool(0.3)
@@ -124,6 +124,12 @@ func mkMeta(kind string) map[string]string {
 		return map[string]string{strings.Repeat("k", 300): "v"}
 	case "longval":
 		return map[string]string{"v": strings.Repeat("x", 70000)}
+	case "widekey": // 200 characters, 400 bytes
+		return map[string]string{strings.Repeat("\u00e9", 200): "v"}
+	case "wideval": // 30000 characters, 90000 bytes
+		return map[string]string{"v": strings.Repeat("\u20ac", 30000)}
+	case "edgekey": // exactly at the limits: legal
+		return map[string]string{strings.Repeat("k", 255): strings.Repeat("v", 65535)}
 	case "many":
 		m := map[string]string{}
 		for i := 0; i < 70000; i++ {
